@@ -163,6 +163,16 @@ def transient(ck, F, E):
                     ok = True
         tested = any("NewInterpreterRequested" in show(mr.expr(a)) for c in mr.calls() if c.callee.endswith("::eq")
                      for a in c.args)
+        if not tested:
+            # `match self.interpreter.get_state() { NewInterpreterRequested => replace, _ => {} }`
+            for sb in sorted(mr.reachable()):
+                info = mr.switch_info(sb)
+                if info and info[3] and "NewInterpreterRequested" in info[3].values():
+                    t_new = [info[1].get(v, info[2]) for v, n in info[3].items() if n == "NewInterpreterRequested"]
+                    stores = [bb for bb, i, pl, rv, sp in mr.assigns() if [p for p in pl["proj"] if p["k"] == "field"] and
+                              [p for p in pl["proj"] if p["k"] == "field"][-1].get("name") == "interpreter"]
+                    if t_new and t_new[0] is not None and stores and all(bb == t_new[0] or mr.dominates(t_new[0], bb) for bb in stores):
+                        tested = True
         ck.require(ok and tested, "C19:TRANSIENT:replace-with-default", "transient state",
                    "on NewInterpreterRequested the interpreter is replaced by Interpreter::default()",
                    "maybe_replace_interpreter no longer installs a fresh default interpreter on NEW", mr.span)
